@@ -155,6 +155,13 @@ var kinds = []kind{
 			rt.WriteString(s)
 			return rt.ToText(0, 0, canvas.Left, canvas.Top, 0, 0)
 		}},
+	{name: "RichText(face 8pt with XOffset=37 YOffset=350 font units).SetWritingMode(VerticalRL).WriteString(s).ToText(0, 0, Left, Top, 0, 0)", size: 8, xoff: 37, yoff: 350, m: viewPlain, vertical: true,
+		build: func(f *canvas.FontFace, s string) *canvas.Text {
+			rt := canvas.NewRichText(f)
+			rt.SetWritingMode(canvas.VerticalRL)
+			rt.WriteString(s)
+			return rt.ToText(0, 0, canvas.Left, canvas.Top, 0, 0)
+		}},
 }
 
 const (
